@@ -311,6 +311,12 @@ def run_config_sym(name, fn, kw, tier, seed, opts):
         tb = traceback.extract_tb(e.__traceback__)
         res['error_in_repo'] = any(fr.filename.startswith(REPO) for fr in tb)
         res['traceback'] = ''.join(traceback.format_exception(type(e), e, e.__traceback__))[-3000:]
+    if res['status'] == 'ok' and ex.stats.get('paths', 0) == 0:
+        res['status'] = 'error'
+        res['error'] = 'no feasible path: the assumptions are unsatisfiable or every path was abandoned'
+        res['error_type'] = 'NoFeasiblePath'
+        res['error_in_repo'] = False
+        res['traceback'] = ''
     res.update(records=h.records, stats=ex.stats, functions=sorted(prof.seen), notes=h.notes,
                samples=h.samples, smt2=h.smt2, stubs=sorted(h.stubs), symvars=h.symvars[:200],
                nsymvars=len(h.symvars), wall=time.time() - t0, solver_time=h.solver_time)
